@@ -1363,8 +1363,9 @@ def _dict_to_BlockSeries(
 
     """
     operator = copy(operator)
-    key_types = set(isinstance(key, sympy.Basic) for key in operator.keys())
-    if any(key_types):
+    # Keys are either tuples of orders or monomials, where the one of the unperturbed
+    # Hamiltonian may be the Python integer 1.
+    if any(not isinstance(key, tuple) for key in operator.keys()):
         operator, symbols = _symbolic_keys_to_tuples(operator, symbols)
 
     n_infinite = len(next(iter(operator.keys())))
